@@ -20,6 +20,9 @@ pub enum Case {
         quiet: bool,
         unicode: bool,
         compressed: bool,
+        /// write the files with CRLF line endings (lines are the same lines)
+        #[serde(default)]
+        crlf: bool,
     },
 }
 
@@ -108,7 +111,7 @@ impl Prop for C19 {
         "C19"
     }
     fn rule(&self) -> String {
-        "(a) inputs from C01's generators (corpus mutations, token soup, built-in calls, raw bytes; all syntaxes, imported files) that fail to compile x unicode on/off: the error names the entry or a readable file, begin <= end, line/column inside that file's text, rendering starts with `Error: <message>`, ASCII mode draws an ASCII frame. (b) generated logging programs (@debug/@warn/@error in loops, conditionals, rules, mixins, functions, content blocks, @import-ed/@use-d files) evaluated by the generator itself x quiet x unicode x style: the collecting Logger receives exactly the expected @debug sequence (kind, file, 0-based line, text) and every expected @warn (at least once, no extras, program order), nothing with `quiet`; @error reports inspect(value). (c) after every compilation with a custom Logger the worker's own stdout and stderr are empty. Non-trivial: (a) error outside line 0 or in an imported file or with a non-ASCII source; (b) a directive executed >= 2 times with different messages, or located in a mixin/function/imported file; distinct by input.".into()
+        "(a) inputs from C01's generators (corpus mutations, token soup, built-in calls, raw bytes; all syntaxes, imported files) that fail to compile x unicode on/off: the error names the entry or a readable file, begin <= end, line/column inside that file's text, rendering starts with `Error: <message>`, ASCII mode draws an ASCII frame. (b) generated logging programs (@debug/@warn/@error in loops, conditionals, rules, mixins, functions, content blocks, @import-ed/@use-d files) evaluated by the generator itself x quiet x unicode x style x {LF, CRLF} line endings: the collecting Logger receives exactly the expected @debug sequence (kind, file, 0-based line, text) and every expected @warn (at least once, no extras, program order), nothing with `quiet`; @error reports inspect(value). (c) after every compilation with a custom Logger the worker's own stdout and stderr are empty. Non-trivial: (a) error outside line 0 or in an imported file or with a non-ASCII source; (b) a directive executed >= 2 times with different messages, or located in a mixin/function/imported file; distinct by input.".into()
     }
     fn strategy(&self, tier: Tier) -> Option<(BoxedStrategy<Case>, u32)> {
         let errs = c01::C01.strategy(tier).unwrap().0.prop_map(Case::ErrLoc);
@@ -119,6 +122,7 @@ impl Prop for C19 {
                 quiet: q && qq % 2 == 0,
                 unicode,
                 compressed,
+                crlf: qq % 3 == 0,
             }
         });
         let s = prop_oneof![5 => errs, 2 => logs].boxed();
@@ -183,13 +187,17 @@ impl Prop for C19 {
                 }
                 Verdict::Pass
             }
-            Case::Logs { prog, quiet, unicode, compressed } => {
+            Case::Logs { prog, quiet, unicode, compressed, crlf } => {
                 if prog.features.iter().any(|f| f == "steps-exceeded") {
                     return Verdict::Discard;
                 }
                 let mut s = Single::scss("");
                 for (n, t) in &prog.files {
-                    s.files.push((n.clone(), Bytes::Text(t.clone())));
+                    let t = if *crlf { t.replace('\n', "\r\n") } else { t.clone() };
+                    s.files.push((n.clone(), Bytes::Text(t)));
+                }
+                if *crlf {
+                    cx.class("b:crlf");
                 }
                 s.entry = Entry::Path(prog.files[0].0.clone());
                 s.quiet = *quiet;
@@ -218,7 +226,8 @@ impl Prop for C19 {
                         if &e.message != msg {
                             return Verdict::Fail(Failure::new("logs:error-message", format!("@error reported {:?}, expected inspect(value) = {:?}", e.message, msg), details(&obs)));
                         }
-                        if let Err((sig, what)) = judge_error(e, *unicode, &prog.files[0].0, Some(&prog.files[0].1), &s.files) {
+                        let entry_text = s.files[0].1.as_text().unwrap_or("").to_string();
+                        if let Err((sig, what)) = judge_error(e, *unicode, &prog.files[0].0, Some(&entry_text), &s.files) {
                             return Verdict::Fail(Failure::new(format!("error:{}", sig), what, details(&obs)));
                         }
                     }
